@@ -121,6 +121,7 @@ type treeTracer struct {
 	hids     map[string]int
 	w        *bufio.Writer
 	nrec     int
+	ownDet   map[*mimetype.MIME]func([]byte, uint32) bool // detectors of the extensions this run registered
 }
 
 func (t *treeTracer) hook(ev mimetype.VerifEvent) {
@@ -263,7 +264,11 @@ func (t *treeTracer) detect(sample string, in []byte, limit int64, entry string,
 			}
 			seen[id] = true
 			v := 0
-			if mimetype.VerifDetector(m)(h, uint32(limit)) {
+			d := mimetype.VerifDetector(m)
+			if own, ok := t.ownDet[m]; ok { // an extension: the function WE registered, not whatever the tree now holds for it
+				d = own
+			}
+			if d(h, uint32(limit)) {
 				v = 1
 			}
 			rec.Recheck = append(rec.Recheck, [2]int{id, v})
@@ -357,7 +362,7 @@ func treetraceMain(args []string) int {
 			fmt.Fprintln(os.Stderr, err)
 			return 2
 		}
-		t := &treeTracer{hids: map[string]int{}, w: bufio.NewWriterSize(f, 1<<20)}
+		t := &treeTracer{hids: map[string]int{}, w: bufio.NewWriterSize(f, 1<<20), ownDet: map[*mimetype.MIME]func([]byte, uint32) bool{}}
 		mimetype.VerifResetTree()
 		mimetype.VerifHook = t.hook
 		t.dumpTree()
@@ -409,6 +414,9 @@ func treetraceMain(args []string) int {
 						parent.Extend(det, name, ".x", "alias/"+name)
 					}
 					n := mimetype.Lookup(name)
+					if n != nil {
+						t.ownDet[n] = det
+					}
 					id := len(t.nodes) + 1
 					t.ids[n] = id
 					t.nodes = append(t.nodes, n)
